@@ -401,7 +401,7 @@ def corr_command_lines(rng):
 
 def prep_records(ctx, d):
     """everything random of the record-level correspondence (ctx.rng is not used from the worker threads)"""
-    n = 400 if ctx.quick else 1000
+    n = 400 if ctx.quick else 4000
     path = os.path.join(d, "corr.fastq")
     inp = gen_corr(ctx, path, n)
     return dict(n=n, path=path, inp=inp, lines=corr_command_lines(ctx.rng))
@@ -507,7 +507,7 @@ def fastq_head(path, nrec):
 
 def prep_inproc(ctx, d, prep):
     rng = ctx.rng
-    ncfg, repeat = (40, 2) if ctx.quick else (60, 2)
+    ncfg, repeat = (40, 2) if ctx.quick else (600, 3)
     nin = min(len(prep["inp"]), 800)          # the in-process runs are many: a head of the correspondence input is enough
     inp = prep["inp"][:nin]
     text = fastq_head(prep["path"], nin)
@@ -708,7 +708,7 @@ def _run(ctx, broken, d):
         return
     T['build_cmds'] = round(time.time() - t0, 1)
     # inputs larger than the 1 MiB read buffer: the reader then delivers several chunks (= several worker batches)
-    nrec = 5000 if ctx.quick else 5000
+    nrec = 5000 if ctx.quick else 20000
     pf, pr = gen_data(ctx, d, nrec)
     # the input of obimultiplex: one reference run of obipairing
     rc0, out0, err0 = run_cmd(bindir, ["obipairing", "-F", os.path.join(d, "F.fastq"), "-R", os.path.join(d, "R.fastq"), "--min-overlap", "10"], 1, 2000, 1)
@@ -717,8 +717,8 @@ def _run(ctx, broken, d):
         grid = [(1, 2000, 1), (1, 1, 4), (2, 7, 2), (8, 1, 16), (8, 7, 16), (16, 2000, 16), (3, nrec, 3), (32, 2, 8)]
         reps = 2
     else:
-        grid = [(c, b, g) for c in (1, 2, 3, 8, 32) for b in (1, 2, 7, 100, nrec) for g in (1, 4, 16)][::3]
-        reps = 1
+        grid = [(c, b, g) for c in (1, 2, 3, 8, 32) for b in (1, 2, 7, 100, nrec) for g in (1, 4, 16)]
+        reps = 4
     T['gen_data'] = round(time.time() - t0, 1)
     lines = command_lines(d, pf, pr)
     runs, nontrivial, dist, traces = 0, set(), {}, []
@@ -730,7 +730,7 @@ def _run(ctx, broken, d):
     fut_rec = pool.submit(records_correspondence, ctx, broken, bindir, d, prep)
 
     # pool traces (both pools) of EVERY command line: one configuration in the quick tier, three in the thorough one
-    traced_cfg = [grid[4]] if ctx.quick else [grid[1], grid[7], grid[20]]
+    traced_cfg = [grid[4]] if ctx.quick else [grid[1], grid[7], grid[40]]
 
     def grid_line(la):
         name, argv = la
@@ -773,7 +773,7 @@ def _run(ctx, broken, d):
     # the command lines run 4 at a time (each one walks its grid sequentially and stops at its first violation)
     futs = [(la[0], pool.submit(grid_line, la)) for la in lines]
     fut_inproc = pool.submit(inprocess_exploration, ctx, broken, d, prep2)
-    fut_json = pool.submit(json_first_use, ctx, 120 if ctx.quick else 500)
+    fut_json = pool.submit(json_first_use, ctx, 120 if ctx.quick else 8000)
     for name, fu in futs:
         n, nt, trs = fu.result()
         progress("grid line %s done (%d runs)" % (name, n))
